@@ -4,6 +4,7 @@ reports, per line, `ok` or the first disagreement.  Core-only (links as a `lean_
 -/
 import Mmmbbb.Model.Step
 import Mmmbbb.Model.Pure
+import Mmmbbb.Model.Api
 open Mmmbbb Mmmbbb.Codec
 
 abbrev Fields := List (String × String)
@@ -160,6 +161,89 @@ def parseOp (op : String) (fs : Fields) (pending : List PubMsg) : Except String 
     pure (.pruneDeletedTopics (← fint fs "minage") (← fnat fs "max") (← fids fs "victims"))
   | _ => .error s!"unknown op {op}"
 
+/-! ### API-level requests (`rpc` lines) -/
+
+def parsePush (s : String) : Except String (Option Api.PushCfg) :=
+  if s == "-" then .ok none
+  else match s.splitOn "~" with
+    | [ep, attrs, auth, unw] =>
+      match dec ep, parseMap attrs with
+      | some e, .ok a => .ok (some { endpoint := e, attrs := a, auth := auth == "true", unwrapped := unw == "true" })
+      | _, _ => .error "bad push"
+    | _ => .error "bad push"
+
+def parseOptInt (s : String) : Except String (Option Int) :=
+  if s == "-" then .ok none else match s.toInt? with | some v => .ok (some v) | none => .error s!"bad int {s}"
+
+def parseSubReq (fs : Fields) : Except String Api.SubReq := do
+  let push ← parsePush ((fget fs "push").getD "-")
+  let dl ← match (fget fs "dl").getD "-" with
+    | "-" => pure none
+    | v => match v.splitOn "~" with
+      | [t, n] => match dec t, n.toInt? with
+        | some t', some n' => pure (some ({ topic := t', maxAttempts := n' } : Api.DlPolicy))
+        | _, _ => .error "bad dl"
+      | _ => .error "bad dl"
+  let retry ← match (fget fs "retry").getD "-" with
+    | "-" => pure none
+    | v => match v.splitOn "~" with
+      | [a, b] => do
+        let a' ← parseOptInt a
+        let b' ← parseOptInt b
+        pure (some ({ minB := a', maxB := b' } : Api.RetryPol))
+      | _ => .error "bad retry"
+  pure { name := ← fstr fs "name", topic := ← fstr fs "topic", push := push, retention := ← fint fs "retention",
+         labels := ← fmap fs "labels", ordering := ← fbool fs "ordering", expiration := ← fint fs "expiration",
+         filter := ← fstr fs "filter", dl := dl, retry := retry, detached := ← fbool fs "detached" }
+
+def parsePaths (fs : Fields) : Except String (List String) :=
+  match fget fs "paths" with
+  | none => .ok []
+  | some v => (splitNE v ",").mapM fun w => match dec w with | some s => .ok s | none => .error "bad path"
+
+def parseToken (fs : Fields) : Except String (Option (Option Id)) :=
+  match (fget fs "tok").getD "-" with
+  | "-" => .ok none
+  | "!" => .ok (some none)
+  | v => match v.toNat? with | some n => .ok (some (some n)) | none => .error "bad token"
+
+def parseRpc (fs : Fields) : Except String Api.Rpc := do
+  match (fget fs "kind").getD "" with
+  | "createTopic" => pure (.createTopic (← fstr fs "name") (← fmap fs "labels") (← fbool fs "adv") (← fnat fs "id"))
+  | "getTopic" => pure (.getTopic (← fstr fs "name"))
+  | "updateTopic" =>
+    let has ← fbool fs "has"
+    let topic ← if has then do pure (some (← fstr fs "name", ← fmap fs "labels")) else pure none
+    pure (.updateTopic topic (← parsePaths fs))
+  | "deleteTopic" => pure (.deleteTopic (← fstr fs "name"))
+  | "listTopics" => pure (.listTopics (← fstr fs "project") (← fint fs "size") (← parseToken fs))
+  | "createSub" => pure (.createSub (← parseSubReq fs) (← fnat fs "id"))
+  | "getSub" => pure (.getSub (← fstr fs "name"))
+  | "updateSub" =>
+    let has ← fbool fs "has"
+    let r ← if has then do pure (some (← parseSubReq fs)) else pure none
+    pure (.updateSub r (← parsePaths fs))
+  | "deleteSub" => pure (.deleteSub (← fstr fs "name"))
+  | "listSubs" => pure (.listSubs (← fstr fs "project") (← fint fs "size") (← parseToken fs))
+  | "modifyPush" => pure (.modifyPush (← fstr fs "name") (← parsePush ((fget fs "push").getD "-")))
+  | "pullCheck" => pure (.pullCheck (← fstr fs "name") (← fint fs "max"))
+  | "ackCheck" => pure (.ackCheck (← fstr fs "name") (← fbool fs "parse") (← fbool fs "ack"))
+  | "seek" =>
+    let target ← match (fget fs "target").getD "none" with
+      | "none" => pure Api.SeekTarget.none
+      | "zero" => pure Api.SeekTarget.timeZero
+      | v => match v.splitOn ":" with
+        | ["time", t] => match t.toInt? with | some x => pure (Api.SeekTarget.time x) | none => .error "bad time"
+        | ["snap", n] => match dec n with | some x => pure (Api.SeekTarget.snapshot x) | none => .error "bad snap"
+        | _ => .error "bad target"
+    pure (.seek (← fstr fs "name") target)
+  | "createSnap" => pure (.createSnap (← fstr fs "name") (← fstr fs "sub") (← fmap fs "labels") (← fnat fs "id"))
+  | "getSnap" => pure (.getSnap (← fstr fs "name"))
+  | "listSnaps" => pure (.listSnaps (← fstr fs "project") (← fint fs "size") (← parseToken fs))
+  | "deleteSnap" => pure (.deleteSnap (← fstr fs "name"))
+  | "publishCheck" => pure (.publishCheck (← fstr fs "topic"))
+  | k => .error s!"unknown rpc kind {k}"
+
 structure DState where
   st      : St := {}
   pending : List PubMsg := []
@@ -185,6 +269,27 @@ def handle (ds : DState) (line : String) : DState × String :=
       | .ok m => ({ ds with pending := ds.pending ++ [m] }, "ok")
       | .error e => (ds, s!"ERROR {e}")
     else if Pure.isPureOp op then (ds, Pure.handle op fs)
+    else if op == "rpc" then
+      match parseRpc fs with
+      | .error e => (ds, s!"ERROR {e}")
+      | .ok r =>
+        match (fget fs "t").bind String.toInt? with
+        | none => (ds, "ERROR missing t")
+        | some t =>
+          if t != ds.st.now then (ds, s!"MISMATCH kind=time model={ds.st.now} impl={t}")
+          else
+            let (db', resp) := Api.handle ds.st.db ds.st.now r
+            let ds' := { ds with st := { ds.st with db := db' } }
+            let exp := (fget fs "exp").getD ""
+            let body := ((fget fs "body").bind dec).getD ""
+            if resp.status.text != exp then (ds', s!"MISMATCH kind=status model={resp.status.text} impl={exp}")
+            else if resp.status == .ok && resp.body != body then (ds', s!"MISMATCH kind=body model={enc resp.body} impl={enc body}")
+            else
+              match fget fs "wk" with
+              | none => (ds', "ok")
+              | some w =>
+                let mine := showIds (sortNat (dedup resp.wakes))
+                if mine == w then (ds', "ok") else (ds', s!"MISMATCH kind=wakes model={mine} impl={w}")
     else
       match parseOp op fs ds.pending with
       | .error e => ({ ds with pending := [] }, s!"ERROR {e}")
